@@ -9,6 +9,10 @@ notation enabled:
      reference evaluator (harness/refeval.py) equals a DIRECT Python definition of the named
      function applied to the values of the operands - exhaustively over all Bool / small-BV
      assignments, sampled for Int / Real.
+Operand shapes: symbols / constants / compounds (pools), results of OTHER derived constructors
+(comp_specs: depth 2 and 3, all shift / rotate amounts at widths 1-4) and explicitly built n-ary
+nodes with unit / absorbing constants at every position (nary_operand_specs).  The oracle runs in
+forked workers while coqc evaluates the model.
 """
 import json
 import random
@@ -36,7 +40,14 @@ ASSUME = [
 ]
 RULE = ("every derived constructor and infix form x arities 0-6 x argument shapes (symbol / constant / compound) over Bool, Int, Real, BV1-3 "
         "(BV4 in thorough), both calling conventions F(a,b,c) and F([a,b,c]); exact structural equality with the model; oracle exhaustive over all "
-        "assignments when the operands have at most LIMIT of them (Bool, BV), sampled otherwise and for Int/Real; distinct = distinct (call, argument keys)")
+        "assignments when the operands have at most LIMIT of them (Bool, BV), sampled otherwise and for Int/Real; distinct = distinct (call, argument keys). "
+        "COMPOSITIONS: every derived constructor / infix form applied to the implementation's result of another one (depth 2: inside one family - shift, rotate, "
+        "extend, repeat, neg/not, extract, min/max, binary-with-a-second-symbol - with ALL integer amounts 0..2^w-1 plus the out-of-range ones at widths 1-4, "
+        "across families all at widths 1-2 and sampled at 3-4 in quick; depth 3 inside the shift / rotate / extend / repeat / neg-not / min-max families and the "
+        "Int/Real negation family and the Boolean family), the model call being the outer constructor on the implementation's inner result, the oracle the "
+        "composition of the direct definitions on the leaf values (exhaustive over x and y). N-ARY OPERANDS: every infix operator (unary, binary with a symbol and "
+        "with a Python literal, reflected forms) on operands built by explicit Plus/Times/And/Or/BVAdd/BVMul/BVAnd/BVOr calls of arity 1-5 with 1/-1/0 "
+        "(TRUE/FALSE; 0/1/all-ones) at every position, nested once, evaluated on a grid where no factor is 1")
 
 VALID, INVALID, ANY = "valid", "invalid", "any"
 MUST_RAISE = object()
@@ -44,12 +55,15 @@ SKIP = object()
 
 
 class Spec(object):
-    __slots__ = ("name", "sig", "desc", "impl", "model", "operands", "direct", "valid", "result", "exc", "canonical")
+    __slots__ = ("name", "sig", "desc", "impl", "model", "operands", "direct", "valid", "result", "exc", "canonical", "extra", "limit", "grid")
 
-    def __init__(self, name, sig, desc, impl, model, operands=(), direct=None, valid=ANY, canonical=False):
+    def __init__(self, name, sig, desc, impl, model, operands=(), direct=None, valid=ANY, canonical=False, extra=(), limit=None, grid=None):
         self.name, self.sig, self.desc, self.impl, self.model = name, sig, desc, impl, model
         self.operands, self.direct, self.valid, self.canonical = list(operands), direct, valid, canonical
         self.result, self.exc = None, None
+        # extra: further formulas the model call mentions; limit: own bound for the exhaustive enumeration;
+        # grid: explicit assignments {symbol: value} tried in addition to the sampled ones
+        self.extra, self.limit, self.grid = list(extra), limit, grid
 
 
 # ------------------------------------------------------------------------------ small helpers
@@ -598,6 +612,361 @@ def syntax_specs(env, out):
         out.append(Spec("syntax", desc, desc, impl, model, operands=ops, direct=direct, valid=VALID, canonical=True))
 
 
+
+# ------------------------------------------------------------------------------ compositions
+# Every derived constructor / infix form applied to an operand that is itself the RESULT of a derived
+# constructor (depth 2; depth 3 inside one family).  The model call is the outer constructor applied to
+# the implementation's inner result, so a constructor that inspects / merges with its operand's shape
+# shows up in the exact correspondence; the oracle compares the value of the built formula with the
+# composition of the direct Python definitions on the leaf values.
+class Op(object):
+    __slots__ = ("name", "group", "impl", "model", "direct", "text", "y", "valid", "extra")
+
+    def __init__(self, name, group, impl, model, direct, text, y=None, valid=VALID, extra=()):
+        self.name, self.group, self.impl, self.model, self.direct, self.text = name, group, impl, model, direct, text
+        self.y, self.valid, self.extra = y, valid, list(extra)
+
+
+def _shl(x, k):
+    return bvv(x.width, x.value << k) if k < x.width else BV(x.width, 0)
+
+
+def _lshr(x, k):
+    return BV(x.width, x.value >> k) if k < x.width else BV(x.width, 0)
+
+
+def _ashr(x, k):
+    return bvv(x.width, x.signed() >> min(k, x.width))
+
+
+def _rol(x, k):
+    w = x.width
+    k %= w
+    return bvv(w, (x.value << k) | (x.value >> (w - k)))
+
+
+def _ror(x, k):
+    return _rol(x, (x.width - k % x.width) % x.width)
+
+
+def bv_ops(m, pools, t, outer):
+    """The unary derived forms (binary ones closed with a second symbol y) on an operand of sort BV(w)."""
+    w = t.width
+    ops = []
+
+    def A(*a, **kw):
+        ops.append(Op(*a, **kw))
+    ks = list(range(1 << w)) if w <= 4 else sorted(set([0, 1, 2, w - 1, w, w + 1, mask(w) - 1, mask(w)]))
+    for k in ks + ([1 << w, (1 << w) + 1, -1] if outer else []):
+        inr = 0 <= k < (1 << w)
+        v = VALID if inr else INVALID
+        for nm_, fn, call, d, py in (("BVLShl", "mk_bvshl_int", m.BVLShl, _shl, "PLshift"), ("BVLShr", "mk_bvlshr_int", m.BVLShr, _lshr, "PRshift"),
+                                     ("BVAShr", "mk_bvashr_int", m.BVAShr, _ashr, None)):
+            A(nm_ + "/int", "shift", (lambda f, k=k, call=call: call(f, k)), (lambda n, nm, k=k, fn=fn: "%s %s %s" % (fn, n, zc(k))),
+              (lambda x, c, k=k, d=d: d(x, k)) if inr else None, (lambda a, k=k, nm_=nm_: "%s(%s, %d)" % (nm_, a, k)), valid=v)
+            if py is not None and outer:
+                sym = "<<" if py == "PLshift" else ">>"
+                A("infix" + sym + "int", "shift", (lambda f, k=k, sym=sym: (f << k) if sym == "<<" else (f >> k)),
+                  (lambda n, nm, k=k, py=py: "infix %s (IPy %s) (OpInt %s)" % (n, py, zc(k))),
+                  (lambda x, c, k=k, d=d: d(x, k)) if inr else None, (lambda a, k=k, sym=sym: "(%s %s %d)" % (a, sym, k)), valid=v)
+        if outer and inr:
+            A("method:BVLShl/int", "shift", (lambda f, k=k: f.BVLShl(k)), (lambda n, nm, k=k: "infix %s (IMeth (CBV BLshl)) (OpInt %s)" % (n, zc(k))),
+              (lambda x, c, k=k: _shl(x, k)), (lambda a, k=k: "(%s).BVLShl(%d)" % (a, k)))
+    for k in range(0, w + 1):
+        A("BVRol", "rotate", (lambda f, k=k: m.BVRol(f, k)), (lambda n, nm, k=k: "Some (mk_bvrol %s %s)" % (n, zc(k))), (lambda x, c, k=k: _rol(x, k)),
+          (lambda a, k=k: "BVRol(%s, %d)" % (a, k)))
+        A("BVRor", "rotate", (lambda f, k=k: m.BVRor(f, k)), (lambda n, nm, k=k: "Some (mk_bvror %s %s)" % (n, zc(k))), (lambda x, c, k=k: _ror(x, k)),
+          (lambda a, k=k: "BVRor(%s, %d)" % (a, k)))
+    for k in range(0, 3):
+        A("BVZExt", "extend", (lambda f, k=k: m.BVZExt(f, k)), (lambda n, nm, k=k: "Some (mk_bvzext %s %s)" % (n, zc(k))),
+          (lambda x, c, k=k: BV(x.width + k, x.value)), (lambda a, k=k: "BVZExt(%s, %d)" % (a, k)))
+        A("BVSExt", "extend", (lambda f, k=k: m.BVSExt(f, k)), (lambda n, nm, k=k: "Some (mk_bvsext %s %s)" % (n, zc(k))),
+          (lambda x, c, k=k: bvv(x.width + k, x.signed())), (lambda a, k=k: "BVSExt(%s, %d)" % (a, k)))
+    for k in ([0, 1, 2] if outer else [1, 2]):
+        A("BVRepeat", "repeat", (lambda f, k=k: m.BVRepeat(f, k)), (lambda n, nm, k=k: "mk_bvrepeat %s %s" % (n, zc(k))),
+          (lambda x, c, k=k: d_repeat(x, k)) if k >= 1 else None, (lambda a, k=k: "BVRepeat(%s, %d)" % (a, k)), valid=VALID if k >= 1 else INVALID)
+    A("BVNeg", "negnot", (lambda f: m.BVNeg(f)), (lambda n, nm: "Some (mk_bvun BNeg %s)" % n), (lambda x, c: bvv(x.width, -x.value)), (lambda a: "BVNeg(%s)" % a))
+    A("BVNot", "negnot", (lambda f: m.BVNot(f)), (lambda n, nm: "Some (mk_bvun BNot %s)" % n), (lambda x, c: bvv(x.width, ~x.value)), (lambda a: "BVNot(%s)" % a))
+    A("infix:__neg__", "negnot", (lambda f: -f), (lambda n, nm: "infix_neg %s" % n), (lambda x, c: bvv(x.width, -x.value)), (lambda a: "(-%s)" % a))
+    A("infix:__invert__", "negnot", (lambda f: ~f), (lambda n, nm: "infix_invert %s" % n), (lambda x, c: bvv(x.width, ~x.value)), (lambda a: "(~%s)" % a))
+    cuts = [(a, b) for a in range(w) for b in range(a, w)]
+    if w > 3:
+        cuts = [(a, b) for a, b in cuts if a in (0, 1, w - 1) or b in (w - 1, w - 2)]
+    for a, b in cuts:
+        A("infix:__getitem__", "extract", (lambda f, a=a, b=b: f[a:b]),
+          (lambda n, nm, a=a, b=b: "infix_getitem %s (IdxSlice (Some %s) (Some %s))" % (n, zc(a), zc(b))),
+          (lambda x, c, a=a, b=b: BV(b - a + 1, (x.value >> a) & mask(b - a + 1))), (lambda t_, a=a, b=b: "%s[%d:%d]" % (t_, a, b)))
+    if t in pools.P:
+        y = pools.P[t]["sym"][1]
+        ys = y.serialize()
+        for sign in (False, True):
+            key = (lambda v: v.signed()) if sign else (lambda v: v.value)
+            sg = "true" if sign else "false"
+            A("MinBV", "minmax", (lambda f, sign=sign: m.MinBV(sign, f, y)), (lambda n, nm, sg=sg: "mk_minbv %s [%s; %s]" % (sg, n, nm[y])),
+              (lambda x, c, key=key: min([x, c[y]], key=key)), (lambda a, sign=sign: "MinBV(%s, %s, %s)" % (sign, a, ys)), y=y)
+            A("MaxBV", "minmax", (lambda f, sign=sign: m.MaxBV(sign, y, f)), (lambda n, nm, sg=sg: "mk_maxbv %s [%s; %s]" % (sg, nm[y], n)),
+              (lambda x, c, key=key: max([c[y], x], key=key)), (lambda a, sign=sign: "MaxBV(%s, %s, %s)" % (sign, ys, a)), y=y)
+        two = [("BVNand", m.BVNand, "Some (mk_bvnand %s %s)", lambda a, b: bvv(a.width, ~(a.value & b.value))),
+               ("BVNor", m.BVNor, "Some (mk_bvnor %s %s)", lambda a, b: bvv(a.width, ~(a.value | b.value))),
+               ("BVXnor", m.BVXnor, "Some (mk_bvxnor %s %s)", lambda a, b: bvv(a.width, ~(a.value ^ b.value))),
+               ("BVSMod", m.BVSMod, "mk_bvsmod %s %s", d_smod),
+               ("BVAdd", m.BVAdd, "mk_bvadd_n [%s; %s]", lambda a, b: bvv(a.width, a.value + b.value)),
+               ("BVMul", m.BVMul, "mk_bvmul_n [%s; %s]", lambda a, b: bvv(a.width, a.value * b.value)),
+               ("BVAnd", m.BVAnd, "mk_bvand_n [%s; %s]", lambda a, b: BV(a.width, a.value & b.value)),
+               ("BVOr", m.BVOr, "mk_bvor_n [%s; %s]", lambda a, b: BV(a.width, a.value | b.value)),
+               ("BVConcat", m.BVConcat, "mk_bvconcat_n [%s; %s]", lambda a, b: d_concat([a, b])),
+               ("infix:__sub__", (lambda a, b: a - b), "infix %s (IPy PSub) (OpT %s)", lambda a, b: bvv(a.width, a.value - b.value)),
+               ("infix:__lshift__", (lambda a, b: a << b), "infix %s (IPy PLshift) (OpT %s)", lambda a, b: _shl(a, b.value))]
+        for nm_, call, fmt, d in two:
+            A(nm_, "binary", (lambda f, call=call: call(f, y)), (lambda n, nm, fmt=fmt: fmt % (n, nm[y])), (lambda x, c, d=d: d(x, c[y])),
+              (lambda a, nm_=nm_: "%s(%s, %s)" % (nm_, a, ys)), y=y)
+        A("BVSMod/flip", "binary", (lambda f: m.BVSMod(y, f)), (lambda n, nm: "mk_bvsmod %s %s" % (nm[y], n)), (lambda x, c: d_smod(c[y], x)),
+          (lambda a: "BVSMod(%s, %s)" % (ys, a)), y=y)
+        A("infix:__rsub__/int", "binary", (lambda f: 1 - f), (lambda n, nm: "infix %s IRsub (OpInt 1%%Z)" % n), (lambda x, c: bvv(x.width, 1 - x.value)),
+          (lambda a: "(1 - %s)" % a))
+    return ops
+
+
+def arith_ops(m, pools, t, abs_fn):
+    """Unary derived / infix forms on an Int or Real operand (binary ones closed with a second symbol y)."""
+    y = pools.P[t]["sym"][1]
+    ys = y.serialize()
+    C = (lambda v: m.Int(v)) if t.is_int_type() else (lambda v: m.Real(v))
+    m1 = C(-1)
+    ops = []
+
+    def A(*a, **kw):
+        ops.append(Op(*a, **kw))
+    A("infix:__neg__", "neg", (lambda f: -f), (lambda n, nm: "infix_neg %s" % n), (lambda x, c: -x), (lambda a: "(-%s)" % a))
+    A("infix:__mul__/int", "neg", (lambda f: f * -1), (lambda n, nm: "infix %s (IPy PMul) (OpInt (-1)%%Z)" % n), (lambda x, c: -x), (lambda a: "(%s * -1)" % a))
+    A("infix:__rmul__/int", "neg", (lambda f: -1 * f), (lambda n, nm: "infix %s (IPy PRmul) (OpInt (-1)%%Z)" % n), (lambda x, c: -x), (lambda a: "(-1 * %s)" % a))
+    A("Times/-1", "neg", (lambda f: m.Times(f, m1)), (lambda n, nm: "mk_times [%s; %s]" % (n, nm[m1])), (lambda x, c: -x), (lambda a: "Times(%s, -1)" % a), extra=[m1])
+    A("Times/-1/first", "neg", (lambda f: m.Times(m1, f)), (lambda n, nm: "mk_times [%s; %s]" % (nm[m1], n)), (lambda x, c: -x), (lambda a: "Times(-1, %s)" % a), extra=[m1])
+    A("Times/-1/nary", "neg", (lambda f: m.Times(f, m1, y)), (lambda n, nm: "mk_times [%s; %s; %s]" % (n, nm[m1], nm[y])), (lambda x, c: -x * c[y]),
+      (lambda a: "Times(%s, -1, %s)" % (a, ys)), y=y, extra=[m1])
+    A("Plus/-1/nary", "neg", (lambda f: m.Plus(f, m1, y)), (lambda n, nm: "mk_plus [%s; %s; %s]" % (n, nm[m1], nm[y])), (lambda x, c: x - 1 + c[y]),
+      (lambda a: "Plus(%s, -1, %s)" % (a, ys)), y=y, extra=[m1])
+    A("infix:__rsub__/int", "neg", (lambda f: 7 - f), (lambda n, nm: "infix %s IRsub (OpInt 7%%Z)" % n), (lambda x, c: 7 - x), (lambda a: "(7 - %s)" % a))
+    A("infix:__rsub__/zero", "neg", (lambda f: 0 - f), (lambda n, nm: "infix %s IRsub (OpInt 0%%Z)" % n), (lambda x, c: -x), (lambda a: "(0 - %s)" % a))
+    A("Abs", "neg", (lambda f: abs_fn(f)), (lambda n, nm: "mk_abs %s" % n), (lambda x, c: abs(x)), (lambda a: "Abs(%s)" % a))
+    A("Min", "neg", (lambda f: m.Min(f, y)), (lambda n, nm: "mk_min [%s; %s]" % (n, nm[y])), (lambda x, c: min(x, c[y])), (lambda a: "Min(%s, %s)" % (a, ys)), y=y)
+    A("Max", "neg", (lambda f: m.Max(y, f)), (lambda n, nm: "mk_max [%s; %s]" % (nm[y], n)), (lambda x, c: max(x, c[y])), (lambda a: "Max(%s, %s)" % (ys, a)), y=y)
+    A("infix:__sub__", "arith", (lambda f: f - y), (lambda n, nm: "infix %s (IPy PSub) (OpT %s)" % (n, nm[y])), (lambda x, c: x - c[y]), (lambda a: "(%s - %s)" % (a, ys)), y=y)
+    A("infix:__sub__/int", "arith", (lambda f: f - 7), (lambda n, nm: "infix %s (IPy PSub) (OpInt 7%%Z)" % n), (lambda x, c: x - 7), (lambda a: "(%s - 7)" % a))
+    A("infix:__add__/int", "arith", (lambda f: f + 1), (lambda n, nm: "infix %s (IPy PAdd) (OpInt 1%%Z)" % n), (lambda x, c: x + 1), (lambda a: "(%s + 1)" % a))
+    A("infix:__mul__", "arith", (lambda f: f * y), (lambda n, nm: "infix %s (IPy PMul) (OpT %s)" % (n, nm[y])), (lambda x, c: x * c[y]), (lambda a: "(%s * %s)" % (a, ys)), y=y)
+    A("Plus", "arith", (lambda f: m.Plus(y, f)), (lambda n, nm: "mk_plus [%s; %s]" % (nm[y], n)), (lambda x, c: x + c[y]), (lambda a: "Plus(%s, %s)" % (ys, a)), y=y)
+    return ops
+
+
+def bool_ops(m, pools):
+    q = pools.P[BOOL]["sym"][1]
+    qs = q.serialize()
+    ops = []
+
+    def A(*a, **kw):
+        ops.append(Op(*a, **kw))
+    A("infix:__invert__", "bool", (lambda f: ~f), (lambda n, nm: "infix_invert %s" % n), (lambda x, c: not x), (lambda a: "(~%s)" % a))
+    A("Not", "bool", (lambda f: m.Not(f)), (lambda n, nm: "Some (mk_not %s)" % n), (lambda x, c: not x), (lambda a: "Not(%s)" % a))
+    for nm_, call, fmt, d in (("infix:__and__", (lambda a, b: a & b), "infix %s (IPy PAnd) (OpT %s)", lambda a, b: a and b),
+                              ("infix:__or__", (lambda a, b: a | b), "infix %s (IPy POr) (OpT %s)", lambda a, b: a or b),
+                              ("infix:__xor__", (lambda a, b: a ^ b), "infix %s (IPy PXor) (OpT %s)", lambda a, b: a != b),
+                              ("Xor", m.Xor, "Some (mk_xor %s %s)", lambda a, b: a != b),
+                              ("method:Implies", (lambda a, b: a.Implies(b)), "infix %s (IMeth CImplies) (OpT %s)", lambda a, b: (not a) or b),
+                              ("method:Iff", (lambda a, b: a.Iff(b)), "infix %s (IMeth CIff) (OpT %s)", lambda a, b: a == b),
+                              ("EqualsOrIff", m.EqualsOrIff, "Some (mk_equals_or_iff %s %s)", lambda a, b: a == b),
+                              ("AtMostOne", m.AtMostOne, "Some (mk_at_most_one [%s; %s])", lambda a, b: not (a and b)),
+                              ("ExactlyOne", m.ExactlyOne, "Some (mk_exactly_one [%s; %s])", lambda a, b: a != b),
+                              ("AllDifferent", m.AllDifferent, "Some (mk_all_different [%s; %s])", lambda a, b: a != b)):
+        A(nm_, "bool", (lambda f, call=call: call(f, q)), (lambda n, nm, fmt=fmt: fmt % (n, nm[q])), (lambda x, c, d=d: d(x, c[q])),
+          (lambda a, nm_=nm_: "%s(%s, %s)" % (nm_, a, qs)), y=q)
+    A("infix:__and__/bool", "bool", (lambda f: f & True), (lambda n, nm: "infix %s (IPy PAnd) (OpBool true)" % n), (lambda x, c: x), (lambda a: "(%s & True)" % a))
+    A("infix:__ror__/bool", "bool", (lambda f: False | f), (lambda n, nm: "infix %s (IPy PRor) (OpBool false)" % n), (lambda x, c: x), (lambda a: "(False | %s)" % a))
+    return ops
+
+
+def comp_specs(pools, rnd, tier, out, abs_fn):
+    m = pools.m
+    quick = tier == "quick"
+    D3 = ("shift", "rotate", "extend", "repeat", "negnot", "minmax", "neg", "bool")
+    counts = {}
+
+    def emit(chain, operand, leaf):
+        """Spec for chain[-1] applied to `operand` (the implementation's result of chain[:-1] on leaf)."""
+        o = chain[-1]
+        ys = []
+        for c_ in chain:
+            if c_.y is not None and c_.y not in ys:
+                ys.append(c_.y)
+        txt = leaf.serialize()
+        for c_ in chain:
+            txt = c_.text(txt)
+        direct = None
+        if all(c_.direct is not None for c_ in chain):
+            def direct(v, chain=chain, ys=ys):
+                ctx = dict(zip(ys, v[1:]))
+                x = v[0]
+                for c_ in chain:
+                    x = c_.direct(x, ctx)
+                return x
+        extra = [operand] + [e for c_ in chain for e in c_.extra]
+        sp = Spec("comp%d:%s" % (len(chain), o.name), "/".join(c_.group for c_ in reversed(chain)) + ":" + sname(sort_of(leaf)), txt,
+                  (lambda o=o, operand=operand: o.impl(operand)), (lambda nm, o=o, operand=operand: o.model(nm[operand], nm)),
+                  operands=[leaf] + ys, direct=direct, valid=o.valid, canonical=True, extra=extra, limit=4096,
+                  grid=None if leaf.get_type().is_bv_type() or leaf.get_type().is_bool_type() else
+                  [{s_: v_ for s_ in [leaf] + ys} for v_ in ((-3, 2, 5) if leaf.get_type().is_int_type() else (Fraction(-3), Fraction(1, 2), Fraction(5)))])
+        out.append(sp)
+        counts[len(chain)] = counts.get(len(chain), 0) + 1
+        try:
+            return o.impl(operand)
+        except Exception:  # noqa
+            return None
+
+    def family(leaf, ops_of, cross_keep, d3_keep, inner_filter=None):
+        lvl1 = []
+        for o in ops_of(sort_of(leaf), True):
+            r = emit([o], leaf, leaf)
+            if r is not None and o.valid == VALID and (inner_filter is None or inner_filter(o)):
+                lvl1.append(([o], r))
+        lvl2 = []
+        for chain, r in lvl1:
+            tr = sort_of(r)
+            for o2 in ops_of(tr, True):
+                same = o2.group == chain[0].group
+                if not same and (o2.valid != VALID or rnd.random() >= cross_keep):
+                    continue
+                r2 = emit(chain + [o2], r, leaf)
+                if same and o2.group in D3 and r2 is not None and o2.valid == VALID and (inner_filter is None or inner_filter(o2)):
+                    lvl2.append((chain + [o2], r2))
+        for chain, r in lvl2:
+            for o3 in ops_of(sort_of(r), False):
+                if o3.group != chain[0].group or o3.valid != VALID or rnd.random() >= d3_keep(chain[0].group):
+                    continue
+                emit(chain + [o3], r, leaf)
+
+    named = lambda o: not o.name.startswith("infix<<") and not o.name.startswith("infix>>") and not o.name.startswith("method:")
+    for t in [s_ for s_ in pools.sorts if s_.is_bv_type()]:
+        w = t.width
+        cross = 1.0 if (w <= 2 or not quick) else (0.25 if w == 3 else 0.06)
+        # depth 3 inside the shift family: 3 * 2^w amounts per level
+        n3 = float((3 << w) ** 3)
+        shift3 = min(1.0, (700.0 if quick else 20000.0) / n3)
+        family(pools.P[t]["sym"][0], (lambda tt, outer: bv_ops(m, pools, tt, outer) if tt.is_bv_type() else []), cross,
+               (lambda g, shift3=shift3: shift3 if g == "shift" else (0.5 if quick else 1.0)), inner_filter=named)
+    for t in (INT, REAL):
+        family(pools.P[t]["sym"][0], (lambda tt, outer, t=t: arith_ops(m, pools, t, abs_fn) if tt == t else []), 1.0, (lambda g: 0.5 if quick else 1.0))
+    family(pools.P[BOOL]["sym"][0], (lambda tt, outer: bool_ops(m, pools) if tt.is_bool_type() else []), 1.0, (lambda g: 0.4 if quick else 1.0))
+    return counts
+
+
+# ------------------------------------------------------------------------------ infix forms on explicit n-ary operands
+def nary_operand_specs(pools, rnd, tier, out):
+    """Every infix operator (unary, binary with a symbol / a Python literal, reflected) applied to operands
+    built by the explicit n-ary constructors - shapes infix notation itself never produces: arity 1-5, the
+    constants 1 / -1 / 0 (TRUE / FALSE; 0 / 1 / all-ones) at every position, nested once."""
+    m = pools.m
+    counts = {"operands": 0, "calls": 0}
+
+    def variants(ctor, base, consts):
+        res = []
+        for n in range(1, len(base) + 1):
+            args = list(base[:n])
+            res.append((ctor(*args) if n > 1 else ctor(args), n, None))
+            for p_ in range(n):
+                for c in consts:
+                    a2 = list(args)
+                    a2[p_] = c
+                    res.append((ctor(*a2) if n > 1 else ctor(a2), n, p_))
+        return res
+
+    def apply_all(node, t, z, lit, ops_lit, ops_sym, grid):
+        counts["operands"] += 1
+        nd = node.serialize()
+        forms = []
+        isbv, isb = t.is_bv_type(), t.is_bool_type()
+        if not isb:
+            forms.append(("infix:__neg__", "-(%s)" % nd, (lambda: -node), (lambda nm: "infix_neg %s" % nm[node]), [node],
+                          (lambda v: bvv(v[0].width, -v[0].value) if isinstance(v[0], BV) else -v[0])))
+        if isb or isbv:
+            forms.append(("infix:__invert__", "~(%s)" % nd, (lambda: ~node), (lambda nm: "infix_invert %s" % nm[node]), [node],
+                          (lambda v: bvv(v[0].width, ~v[0].value) if isinstance(v[0], BV) else (not v[0]))))
+        for op in ops_lit:
+            meth = "__rsub__" if op == "IRsub" else PYOPS[op]
+            coqop = "IRsub" if op == "IRsub" else "(IPy %s)" % op
+            rv = promote(lit, t)
+            forms.append(("infix:" + meth, "(%s).%s(%r)" % (nd, meth, lit), (lambda meth=meth: getattr(node, meth)(lit)),
+                          (lambda nm, coqop=coqop: "infix %s %s %s" % (nm[node], coqop, operand_coq(nm, lit))), [node],
+                          (lambda v, op=op, rv=rv: py_sem(op, v[0], rv))))
+        for op in ops_sym:
+            meth = "__rsub__" if op == "IRsub" else PYOPS[op]
+            coqop = "IRsub" if op == "IRsub" else "(IPy %s)" % op
+            forms.append(("infix:" + meth, "(%s).%s(%s)" % (nd, meth, z.serialize()), (lambda meth=meth: getattr(node, meth)(z)),
+                          (lambda nm, coqop=coqop: "infix %s %s (OpT %s)" % (nm[node], coqop, nm[z])), [node, z],
+                          (lambda v, op=op: py_sem(op, v[0], v[1]))))
+        for name, desc, impl, model, operands, direct in forms:
+            out.append(Spec("nary-operand:" + name, "%s/%s" % (sname(t), op_to_name(node)), desc, impl, model, operands=operands, direct=direct,
+                            valid=VALID, limit=64, grid=grid))
+            counts["calls"] += 1
+
+    def op_to_name(node):
+        import pysmt.operators as pop
+        return pop.op_to_str(node.node_type())
+
+    for t in (INT, REAL):
+        syms = pools.P[t]["sym"]
+        C = (lambda v: m.Int(v)) if t.is_int_type() else (lambda v: m.Real(v))
+        consts = [C(1), C(-1), C(0)]
+        z = syms[5]
+        V = (lambda v: v) if t.is_int_type() else (lambda v: Fraction(v))
+        allsyms = list(syms)
+        grid = [{s_: V(-3) for s_ in allsyms}, {s_: V(2) for s_ in allsyms}, {s_: V(-3 if i % 2 else 2) for i, s_ in enumerate(allsyms)},
+                {s_: V(2 if i % 2 else -3) for i, s_ in enumerate(allsyms)}, {s_: V(v_) for s_, v_ in zip(allsyms, (5, -2, 3, -3, 2, 4))}]
+        nodes = []
+        for ctor in (m.Plus, m.Times):
+            vs = variants(ctor, syms[:5], consts)
+            nodes += [n_ for n_, _, _ in vs]
+            other = m.Times if ctor is m.Plus else m.Plus
+            for n_, ar, p_ in vs:
+                if ar == 3 and p_ in (None, 1):
+                    nodes += [other(n_, z), other(z, n_), ctor(n_, z)]
+        seen = set()
+        for n_ in nodes:
+            if n_ in seen or not n_.args():
+                continue
+            seen.add(n_)
+            apply_all(n_, t, z, 7, ARITH_OPS, ("PSub", "PMul", "IRsub", "PGt"), grid)
+    syms = pools.P[BOOL]["sym"]
+    q = syms[5]
+    nodes = []
+    for ctor in (m.And, m.Or):
+        vs = variants(ctor, syms[:5], [m.TRUE(), m.FALSE()])
+        nodes += [n_ for n_, _, _ in vs]
+        other = m.Or if ctor is m.And else m.And
+        nodes += [other(n_, q) for n_, ar, p_ in vs if ar == 3 and p_ in (None, 1)] + [ctor(n_, q) for n_, ar, p_ in vs if ar == 3 and p_ is None]
+    seen = set()
+    for n_ in nodes:
+        if n_ in seen or not n_.args():
+            continue
+        seen.add(n_)
+        apply_all(n_, BOOL, q, True, ("PAnd", "POr", "PXor", "PRand"), BITS_OPS, None)
+    for t in [s_ for s_ in pools.sorts if s_.is_bv_type() and s_.width in (1, 2)]:
+        w = t.width
+        syms = pools.P[t]["sym"]
+        z = syms[5]
+        consts = [m.BV(v, w) for v in sorted(set([0, 1, mask(w)]))]
+        nodes = []
+        for ctor in (m.BVAdd, m.BVMul, m.BVAnd, m.BVOr):
+            nodes += [n_ for n_, _, _ in variants(ctor, syms[:4], consts)]
+        seen = set()
+        for n_ in nodes:
+            if n_ in seen or not n_.args():
+                continue
+            seen.add(n_)
+            apply_all(n_, t, z, 1, ("PAdd", "PSub", "IRsub", "PMul", "PAnd", "POr", "PXor", "PLshift", "PRshift", "PMod", "PDiv", "PLt", "PGe"),
+                      ("PSub", "PMul", "PLshift"), None)
+    return counts
+
+
 # ------------------------------------------------------------------------------ running
 def run_specs(env, specs):
     with env:
@@ -620,24 +989,29 @@ def same_value(got, exp):
     return type(got) is type(exp) and got == exp
 
 
-def oracle(chk, rnd, s, limit, nsample, stats):
-    """Property-level check of one spec on the implementation; True iff a violation was reported."""
+def oracle(rnd, s, limit, nsample, stats):
+    """Property-level check of one spec on the implementation; (replay record, key) of a violation or None."""
     key = "%s:%s" % (s.name, s.sig)
     if s.result is None:
         if s.valid == VALID:
-            return chk.violation({"kind": "input", "what": "%s raised %s on operands in the domain of the named function" % (s.desc, s.exc),
-                                  "repro": s.desc, "expected": "a formula denoting the function", "observed": "raises " + str(s.exc)}, key="raises:" + key)
-        return False
+            return ({"kind": "input", "what": "%s raised %s on operands in the domain of the named function" % (s.desc, s.exc),
+                     "repro": s.desc, "expected": "a formula denoting the function", "observed": "raises " + str(s.exc)}, "raises:" + key)
+        return None
     if s.valid == INVALID:
-        return chk.violation({"kind": "input", "what": "%s is outside the documented domain but returned the formula %s" % (s.desc, s.result.serialize()[:300]),
-                              "repro": s.desc, "expected": "an exception", "observed": s.result.serialize()[:300]}, key="accepts:" + key)
+        return ({"kind": "input", "what": "%s is outside the documented domain but returned the formula %s" % (s.desc, s.result.serialize()[:300]),
+                 "repro": s.desc, "expected": "an exception", "observed": s.result.serialize()[:300]}, "accepts:" + key)
     if s.direct is None:
-        return False
+        return None
     forms = s.operands + [s.result]
-    interps = refeval.exhaustive_interps(forms, limit=limit)
+    interps = refeval.exhaustive_interps(forms, limit=s.limit if s.limit is not None else limit)
     exhaustive = interps is not None
     if interps is None:
-        interps = refeval.random_interps(rnd, forms, nsample)
+        interps = refeval.random_interps(rnd, forms, nsample if s.grid is None else max(8, nsample // 4))
+        for g in (s.grid or ()):
+            it = refeval.random_interp(rnd, forms)
+            for sym, v in g.items():
+                it.set_symbol(sym, v)
+            interps.append(it)
     stats["exhaustive" if exhaustive else "sampled"] += 1
     cache = refeval.EvalCache()
     for it in interps:
@@ -651,17 +1025,36 @@ def oracle(chk, rnd, s, limit, nsample, stats):
         if exp is SKIP:
             continue
         if exp is MUST_RAISE or not same_value(got, exp):
-            return chk.violation({"kind": "input", "what": "%s built %s, whose value differs from the named function" % (s.desc, s.result.serialize()[:300]),
-                                  "repro": s.desc, "interpretation": it.describe(), "operand_values": [repr(v) for v in vals],
-                                  "expected": "no value (outside the domain)" if exp is MUST_RAISE else repr(exp), "observed": repr(got),
-                                  "oracle": "refeval value of the built formula vs direct Python definition"}, key="value:" + key)
-    return False
+            return ({"kind": "input", "what": "%s built %s, whose value differs from the named function" % (s.desc, s.result.serialize()[:300]),
+                     "repro": s.desc, "interpretation": it.describe(), "operand_values": [repr(v) for v in vals],
+                     "expected": "no value (outside the domain)" if exp is MUST_RAISE else repr(exp), "observed": repr(got),
+                     "oracle": "refeval value of the built formula vs direct Python definition"}, "value:" + key)
+    return None
+
+
+_ORACLE = {}
+
+
+def _oracle_chunk(r):
+    """Worker (forked: the specs are inherited, only indexes and records cross the process boundary)."""
+    specs, seed, lim_canon, lim_other, nsample, k = (_ORACLE[x] for x in ("specs", "seed", "lim_canon", "lim_other", "nsample", "k"))
+    stats = {"exhaustive": 0, "sampled": 0, "evaluations": 0}
+    found = []
+    for i in range(r, len(specs), k):
+        s = specs[i]
+        try:
+            rec = oracle(random.Random(seed * 1000003 + i), s, lim_canon if s.canonical else lim_other, nsample, stats)
+        except Exception as ex:   # noqa: an oracle crash is reported, never swallowed
+            rec = ({"kind": "input", "what": "oracle failed on %s: %r" % (s.desc, ex), "repro": s.desc}, "oracle-error:%s:%s" % (s.name, s.sig))
+        if rec is not None:
+            found.append((i, rec))
+    return found, stats
 
 
 def correspondence(chk, specs, tag):
     cases = []
     for s in specs:
-        roots = [o for o in s.operands] + ([s.result] if s.result is not None else [])
+        roots = [o for o in s.operands] + list(s.extra) + ([s.result] if s.result is not None else [])
 
         def body(nm, s=s):
             return "(checked (%s), %s)" % (s.model(nm), "None" if s.result is None else "Some %s" % nm[s.result])
@@ -698,6 +1091,18 @@ def build_all(tier, rnd):
     # literals whose promotion depends on the constant caches: an environment without the constants 0, 1, 5
     group(lambda env, pools, out: infix_specs(pools, rnd, "quick", out, [True, False, Fraction(5), Fraction(-3, 4), 6.0], light=True), small_consts=False)
     group(lambda env, pools, out: syntax_specs(env, out))
+    fam = {}
+
+    def comp(env, pools, out):
+        import pysmt.shortcuts as sc
+        pools4 = Pools(env, [1, 2, 3, 4])
+        fam["compositions"] = comp_specs(pools4, rnd, tier, out, sc.Abs)
+    group(comp)
+
+    def naryop(env, pools, out):
+        fam["nary_operands"] = nary_operand_specs(pools, rnd, tier, out)
+    group(naryop)
+    build_all.families = fam
     return groups
 
 
@@ -715,17 +1120,27 @@ def run(tier, only=None):
         files += [(p, first + len(allspecs), n) for p, first, n in correspondence(chk, specs, "g%d" % gi)]
         allspecs += specs
     chk.note("%d calls on the implementation; running the model on them" % len(allspecs))
+    # ---------------- property-level oracle (independent of the model), in forked workers, while coqc evaluates the model
+    lim_canon, lim_other, nsample = (4096, 256, 48) if tier == "quick" else (65536, 4096, 400)
+    nw = max(1, min(12, lib.NPROC - 4))
+    _ORACLE.update(specs=allspecs, seed=chk.seed, lim_canon=lim_canon, lim_other=lim_other, nsample=nsample, k=nw * 8)
+    import multiprocessing
+    pool = multiprocessing.get_context("fork").Pool(nw)
+    pending = pool.map_async(_oracle_chunk, range(nw * 8), chunksize=1)
     bad, errs = termcases.run(files)
     chk.note("model evaluated in Coq (%d case files): %d disagreements, %d file errors" % (len(files), len(bad), len(errs)))
     for s in allspecs:
         chk.count((s.name, s.desc), nontrivial=bool(s.operands) or s.result is not None)
-    # ---------------- property-level oracle (independent of the model)
     stats = {"exhaustive": 0, "sampled": 0, "evaluations": 0}
-    lim_canon, lim_other, nsample = (4096, 256, 48) if tier == "quick" else (65536, 4096, 400)
-    nviol = 0
-    for s in allspecs:
-        if oracle(chk, rnd, s, lim_canon if s.canonical else lim_other, nsample, stats):
-            nviol += 1
+    found = []
+    for fnd, st in pending.get():
+        found += fnd
+        for k_ in stats:
+            stats[k_] += st[k_]
+    pool.close()
+    pool.join()
+    for i, (rec, key) in sorted(found, key=lambda x: x[0]):
+        chk.violation(rec, key=key)
     chk.note("oracle: %d calls checked exhaustively, %d sampled, %d evaluations" % (stats["exhaustive"], stats["sampled"], stats["evaluations"]))
     names = {}
     for s in allspecs:
@@ -736,6 +1151,7 @@ def run(tier, only=None):
                                  "raised": sum(1 for s in allspecs if s.result is None), "disagreements": len(bad),
                                  "case_file_errors": len(errs), "examples": [allspecs[i].desc for i in bad[:6]], "per_constructor": names}
     chk.cov["oracle"] = stats
+    chk.cov["families"] = getattr(build_all, "families", {})
     for s in (allspecs[7], allspecs[len(allspecs) // 3], allspecs[len(allspecs) // 2], allspecs[-3]):
         chk.sample({"call": s.desc[:200], "built": None if s.result is None else s.result.serialize()[:200], "raised": s.exc})
     for e in errs[:2]:
